@@ -9,6 +9,7 @@ import DryocVerif.Proofs.GenBlake2b
 import DryocVerif.Proofs.OnetimeAuth
 import DryocVerif.Proofs.Poly1305Extra
 import DryocVerif.Proofs.Blake2bExtra
+import DryocVerif.Proofs.ObjectViewExtra
 /-
 C07 — hash, MAC and core primitives equal their specifications on every input.
 Property theorems only; helper lemmas live in `DryocVerif/Proofs`.
@@ -157,6 +158,57 @@ example :
     Model.OnetimeAuth.onetimeauthVerify key msg (tag.set 3 0xc0) = .err ∧
     Model.OnetimeAuth.objectVerifyChunks key [msg.take 5, [], msg.drop 5] (tag ++ [7]) = .ok () ∧
     Model.OnetimeAuth.objectVerifyChunks key [msg] (tag.take 15) = .panic := by
+  decide +kernel
+
+/-! #### `ByteArray<N>::as_array` on variable-length containers, in general
+
+`Model.ArrayView.asArray n x` is `<Vec<u8> | &[u8] | [u8] as ByteArray<n>>::as_array` (/repo/src/types.rs:151, :337,
+:351): `assert!(len >= n)`, then the first `n` bytes.  `Model.OnetimeAuth.asArray16` is the instance `n = 16`. -/
+
+/-- the view panics exactly on a too short container, never returns `Err`, and otherwise yields the first `n` bytes
+(the identity when the length is exact — the case of every container whose TYPE carries the length) -/
+theorem as_array_cases (n : Nat) (x : Bytes) :
+    (Model.ArrayView.asArray n x = .panic ↔ x.length < n) ∧
+    (∀ a, Model.ArrayView.asArray n x = .ok a ↔ n ≤ x.length ∧ a = x.take n) ∧
+    Model.ArrayView.asArray n x ≠ .err ∧
+    (x.length = n → Model.ArrayView.asArray n x = .ok x) ∧
+    Model.OnetimeAuth.asArray16 x = Model.ArrayView.asArray 16 x :=
+  ⟨Proofs.ObjectViewExtra.asArray_panic_iff n x, Proofs.ObjectViewExtra.asArray_ok_iff n x,
+    Proofs.ObjectViewExtra.asArray_ne_err n x, Proofs.ObjectViewExtra.asArray_exact n x, rfl⟩
+
+/-- **`OnetimeAuth::new(key)` … `verify(tag)` with the KEY also taken through `as_array`** (`key: Key` is any
+`ByteArray<32>`, `Vec<u8>` included; `Model.OnetimeAuth.objectVerifyChunks` assumes a 32-byte key): a key container
+shorter than 32 bytes panics in `new`, a longer one is used through its first 32 bytes; likewise the tag (16). -/
+theorem poly1305_object_verify_key_cases (key : Bytes) (cs : List Bytes) (tag : Bytes) :
+    (Model.ObjectView.onetimeObjectVerify key cs tag = .panic ↔ key.length < 32 ∨ tag.length < 16) ∧
+    (Model.ObjectView.onetimeObjectVerify key cs tag = .ok () ↔
+      32 ≤ key.length ∧ 16 ≤ tag.length ∧ tag.take 16 = Spec.Poly1305.mac (key.take 32) cs.flatten) :=
+  Proofs.ObjectViewExtra.onetimeObjectVerify_cases key cs tag
+
+/-- with a 32-byte key it is the function of `poly1305_object_verify_cases` -/
+theorem poly1305_object_verify_key_exact (key : Bytes) (hk : key.length = 32) (cs : List Bytes) (tag : Bytes) :
+    Model.ObjectView.onetimeObjectVerify key cs tag = Model.OnetimeAuth.objectVerifyChunks key cs tag :=
+  Proofs.ObjectViewExtra.onetimeObjectVerify_exact key hk cs tag
+
+/-- `OnetimeAuth::compute_and_verify(other_mac, key, input)` with both views
+(`crypto_onetimeauth_verify(other_mac.as_array(), input, key.as_array())`) -/
+theorem poly1305_compute_and_verify_key_cases (tag key msg : Bytes) :
+    (Model.ObjectView.onetimeComputeAndVerify tag key msg = .panic ↔ tag.length < 16 ∨ key.length < 32) ∧
+    (Model.ObjectView.onetimeComputeAndVerify tag key msg = .ok () ↔
+      16 ≤ tag.length ∧ 32 ≤ key.length ∧ tag.take 16 = Spec.Poly1305.mac (key.take 32) msg) :=
+  Proofs.ObjectViewExtra.onetimeComputeAndVerify_cases tag key msg
+
+/-- test (evaluated; RFC 8439 §2.5.2 vector): a 31-byte key container panics, a 33-byte one starting with the key
+verifies, and so does a 33-byte key together with a 17-byte tag -/
+example :
+    let key : Bytes := [0x85,0xd6,0xbe,0x78,0x57,0x55,0x6d,0x33,0x7f,0x44,0x52,0xfe,0x42,0xd5,0x06,0xa8,
+                        0x01,0x03,0x80,0x8a,0xfb,0x0d,0xb2,0xfd,0x4a,0xbf,0xf6,0xaf,0x41,0x49,0xf5,0x1b]
+    let msg : Bytes := "Cryptographic Forum Research Group".toUTF8.toList
+    let tag : Bytes := [0xa8,0x06,0x1d,0xc1,0x30,0x51,0x36,0xc6,0xc2,0x2b,0x8b,0xaf,0x0c,0x01,0x27,0xa9]
+    Model.ObjectView.onetimeObjectVerify (key.take 31) [msg] tag = .panic ∧
+    Model.ObjectView.onetimeObjectVerify (key ++ [9]) [msg] tag = .ok () ∧
+    Model.ObjectView.onetimeComputeAndVerify (tag ++ [7]) (key ++ [9]) msg = .ok () ∧
+    Model.ObjectView.onetimeComputeAndVerify (tag.take 15) key msg = .panic := by
   decide +kernel
 
 /-! #### whole-run overflow freedom -/
@@ -536,6 +588,56 @@ theorem hmac_verify_ok_iff (key msg mac : Bytes) (hk : key.length = 32) :
     Model.Core.hmacVerify Spec.Sha512.sha512 mac msg key = .ok () ↔ mac = Spec.Hmac.hmacSha512256 key msg :=
   Proofs.Core.hmacVerify_ok_iff key msg mac (by omega)
 
+/-- **`Auth::new(key)`, `update(c)`…, `verify(tag)`** (/repo/src/auth.rs; `Model.ObjectView.authObjectVerify`:
+`crypto_auth_init(key.as_array())`, the updates, `self.finalize()`, `other_mac.as_array().ct_eq(computed_mac.as_array())`)
+with containers whose length is not in the type (`Vec<u8>`, `&[u8]`).  BOTH the key and the tag go through
+`as_array`: the call panics iff the key container holds fewer than 32 bytes (in `new`) or the tag container fewer
+than 32 (in `verify`); it returns `Ok(())` iff both are long enough and the FIRST 32 bytes of the tag are
+HMAC-SHA-512-256 of the concatenated chunks under the FIRST 32 bytes of the key; `Err` otherwise.  (Named
+difference to "accepts exactly the correct authenticator": for these containers it is "exactly the byte strings that
+START with it", and a short container is a panic, not an `Err`.) -/
+theorem hmac_object_verify_cases_general (key : Bytes) (cs : List Bytes) (tag : Bytes) :
+    (Model.ObjectView.authObjectVerify Spec.Sha512.sha512 key cs tag = .panic ↔
+      key.length < 32 ∨ tag.length < 32) ∧
+    (Model.ObjectView.authObjectVerify Spec.Sha512.sha512 key cs tag = .ok () ↔
+      32 ≤ key.length ∧ 32 ≤ tag.length ∧
+        tag.take 32 = Spec.Hmac.hmacSha512256 (key.take 32) cs.flatten) :=
+  Proofs.ObjectViewExtra.authObjectVerify_cases key cs tag
+
+/-- the same with a 32-byte key (`auth::Key = StackByteArray<32>`, the documented usage): only the tag view is left -/
+theorem hmac_object_verify_cases (key : Bytes) (hk : key.length = 32) (cs : List Bytes) (tag : Bytes) :
+    (Model.ObjectView.authObjectVerify Spec.Sha512.sha512 key cs tag = .panic ↔ tag.length < 32) ∧
+    (Model.ObjectView.authObjectVerify Spec.Sha512.sha512 key cs tag = .ok () ↔
+      32 ≤ tag.length ∧ tag.take 32 = Spec.Hmac.hmacSha512256 key cs.flatten) := by
+  have h := Proofs.ObjectViewExtra.authObjectVerify_cases key cs tag
+  have hkk : key.take 32 = key := List.take_of_length_le (by omega)
+  rw [hkk] at h
+  refine ⟨h.1.trans ⟨fun h' => h'.resolve_left (by omega), Or.inr⟩, h.2.trans ?_⟩
+  exact ⟨fun h' => ⟨h'.2.1, h'.2.2⟩, fun h' => ⟨by omega, h'.1, h'.2⟩⟩
+
+/-- `Auth::compute_and_verify(other_mac, key, input)` =
+`crypto_auth_verify(other_mac.as_array(), input, key.as_array())`: the same two views -/
+theorem hmac_compute_and_verify_cases (tag key msg : Bytes) :
+    (Model.ObjectView.authComputeAndVerify Spec.Sha512.sha512 tag key msg = .panic ↔
+      tag.length < 32 ∨ key.length < 32) ∧
+    (Model.ObjectView.authComputeAndVerify Spec.Sha512.sha512 tag key msg = .ok () ↔
+      32 ≤ tag.length ∧ 32 ≤ key.length ∧ tag.take 32 = Spec.Hmac.hmacSha512256 (key.take 32) msg) :=
+  Proofs.ObjectViewExtra.authComputeAndVerify_cases tag key msg
+
+/-- non-vacuity witness (evaluated, with a toy 64-byte "hash" so that the kernel does not run SHA-512): the
+31-byte cases panic, a 33-byte tag / key starting with the right value is accepted, a wrong tag is an `Err` -/
+example :
+    let H : Bytes → Bytes := fun x => List.replicate 64 (UInt8.ofNat x.length)
+    let key : Bytes := List.replicate 32 1
+    let tag : Bytes := List.replicate 32 192
+    Model.ObjectView.authObjectVerify H key [[1, 2], [3]] tag = .ok () ∧
+    Model.ObjectView.authObjectVerify H key [[1, 2], [3]] (tag ++ [5]) = .ok () ∧
+    Model.ObjectView.authObjectVerify H (key ++ [5]) [[1, 2], [3]] tag = .ok () ∧
+    Model.ObjectView.authObjectVerify H key [[1, 2], [3]] (tag.take 31) = .panic ∧
+    Model.ObjectView.authObjectVerify H (key.take 31) [[1, 2], [3]] tag = .panic ∧
+    Model.ObjectView.authObjectVerify H key [[1, 2], [3]] (tag.set 0 0) = .err := by
+  decide +kernel
+
 /-! ### Tie to the source: the machine-translated kernels (`DryocVerif/Gen/*.lean`, regenerated from `/repo/src` by
 `tools/rs2lean.py` on every run) equal the hand-written model.  An edit of the Rust arithmetic changes the generated
 definition, and these theorems are re-checked against what the code says now. -/
@@ -645,6 +747,12 @@ open DryocVerif.Properties.C07
 #print axioms poly1305_object_verify_ok_iff
 #print axioms poly1305_object_verify_cases
 #print axioms poly1305_compute_and_verify_ok_iff
+#print axioms as_array_cases
+#print axioms poly1305_object_verify_key_cases
+#print axioms poly1305_compute_and_verify_key_cases
+#print axioms hmac_object_verify_cases_general
+#print axioms hmac_object_verify_cases
+#print axioms hmac_compute_and_verify_cases
 #print axioms poly1305_block_chain_is_blockStep
 #print axioms poly1305_finish_chain_is_finish
 #print axioms poly1305_run_no_overflow
